@@ -48,6 +48,19 @@ def _box(rng, cfg, prev):
             return [list(ax) for ax in b]  # duplicate
         if r < 0.6:  # nested
             return [[ax[0] + (ax[1] - ax[0]) * 0.25, ax[1] - (ax[1] - ax[0]) * 0.25] for ax in b]
+        if r < 0.75:  # sliver: a copy whose one face sticks out by a hair (1 ulp ... 4e-10)
+            import math as _m
+            out = [list(ax) for ax in b]
+            i = rng.randrange(3)
+            side = rng.randrange(2)
+            v = out[i][side]
+            step = rng.choice(["ulp", 1e-12, 4e-10, 1e-9])
+            if step == "ulp":
+                nv = _m.nextafter(v, _m.inf if side else -_m.inf)
+            else:
+                nv = v + (step if side else -step) * max(1.0, abs(v))
+            out[i][side] = nv
+            return out
         # touching: shares a face / edge / corner exactly
         out = []
         for ax in b:
@@ -150,7 +163,15 @@ def gen(rng, tier="quick", prop="C05"):
         prev = [e[0] for tr in model.trees.values() for e in tr]
         c = rng.random()
         if c < 0.7 or len(slots) == 0:
-            if prev and rng.chance(0.3):
+            if prev and rng.chance(0.15):  # touches exactly one face of an inserted box from outside
+                b0 = rng.choice(prev)
+                box = [list(ax) for ax in b0]
+                i = rng.randrange(3)
+                if rng.chance(0.5):
+                    box[i] = [b0[i][1], b0[i][1] + rng.choice([0.0, 0.5, 1.0])]
+                else:
+                    box[i] = [b0[i][0] - rng.choice([0.0, 0.5, 1.0]), b0[i][0]]
+            elif prev and rng.chance(0.3):
                 box = [list(ax) for ax in rng.choice(prev)]
             else:
                 box = _box(rng, cfg, prev)
